@@ -36,10 +36,17 @@ pub fn text_oracle(text: &str) -> Option<String> {
     if let crate::xp::Outcome::NotAnItem(_) = a {
         return None;
     }
-    // C16
-    let rep = crate::props::c16::judge(text.to_string(), vec![], &ctx);
-    if let Verdict::Fail { msg, .. } = rep.verdict {
-        return Some(format!("property=C16 part=text {}", msg));
+    let only = std::env::var("VF_FUZZ_PROP").ok();
+    let wants = |p: &str| only.as_deref().map_or(true, |o| o == p);
+    // C16 (a panic met in another property's campaign is C16's business and does not stop that campaign)
+    if wants("C16") {
+        let rep = crate::props::c16::judge(text.to_string(), vec![], &ctx);
+        if let Verdict::Fail { msg, .. } = rep.verdict {
+            return Some(format!("property=C16 part=text {}", msg));
+        }
+    }
+    if !wants("C19") {
+        return None;
     }
     // C19
     let b = crate::xp::expand(text);
